@@ -29,9 +29,9 @@ PROPS = {
         "faults): in every world reachable from genesis, for every denom, sum of the reserves of all pools <= the pool manager's "
         "bank balance (C01_backed_in_every_reachable_world). Assumes no transaction is signed by the pool manager's own address "
         "and configured creation fees < 2^127. The side clause 'excess comes only from donations / the odd unit' is a theorem over "
-        "histories of the core pool operations (see OVER HISTORIES below); PARTIAL for histories that also contain farm creations, farm closings "
-        "or emergency withdrawals (lower bound + monitors there) and for 'only minimum-liquidity LP is held' "
-        "(per-transaction theorem for first deposits + monitor). The inequality is also evaluated on the "
+        "histories of ALL operations (see OVER HISTORIES below; side conditions checked along the run: no fee collector or farm "
+        "owner is the pool manager itself). PARTIAL only for 'only minimum-liquidity LP is held' (per-transaction theorem for "
+        "first deposits + C02's locked-minimum theorems + monitor). The inequality is also evaluated on the "
         "implementation's snapshots by the Coq monitor mon_C01 after every operation of every generated history (pools sharing "
         "denoms, LP denoms used as pool assets, donations, odd single-asset deposits, routes, faults).",
         monitor="mon_C01f"),
@@ -192,7 +192,7 @@ _EXTRA = {
  "C09": "Whole-transaction theorem (C09_emergency_withdrawal_transaction_moves_exactly_these_balances): every bank balance after an emergency withdrawal. Monitor mon_C09 (the owner receives between 10% and 100%; a regular withdrawal returns all).",
  "C12": "Transaction-level forms: the Simulation on the state before a swap transaction gives exactly the receiver's gain, the collector's gain and what leaves the pool manager (C12_quote_is_what_the_swap_transaction_pays); SimulateSwapOperations gives exactly what the route transaction sends the receiver (C12_route_quote_is_what_the_route_transaction_pays). Monitor mon_C12 on the implementation: a swap / route executed right after its quote pays the receiver the quoted amount, and a direct swap REPORTS (event attributes) exactly the quoted return, spread and fee amounts.",
  "C16": "Exact fees as one equation: the two validations of CreatePool force the attached funds to be, denom by denom, exactly creation fee + token-factory fee (C16_creation_funds_are_exactly_the_fees), hence a creation leaves the pool manager's surplus unchanged (C01_excess_through_a_pool_creation). Whole-transaction theorem (C16_creation_transaction_moves_exactly_these_balances): the attached funds go to the pool manager, out of which exactly the creation fee goes to the collector and exactly the token-factory fee is destroyed; no other balance changes.",
- "C01": "OVER HISTORIES (ExcessLedger.v, C01_excess_is_exactly_donations_plus_odd_units): after any history made of EVERY kind of pool-manager message (pool creations, deposits of one or several assets unlocked or locked in the farm manager - nested contract calls, the swap-reply-deposit chain -, swaps, routes, withdrawals, ownership / configuration / switch messages), of transactions to the epoch manager and the fee collector, of transactions to the farm manager (claims, position operations except emergency withdrawals, farm expansions, configuration), bank sends, block changes, faults and rejected operations, the excess in every non-LP denom is EXACTLY the initial excess plus the ledger, whose entries are only plain bank sends to the contract and the single unit of accepted odd single-asset deposits (kernel-evaluated example included). THE EXCESS CLAUSE is also proved transaction by transaction as exact equalities on (balance - reserves), per denom (TxExcess.v, theorems C01_excess_through_a_swap / _route / _withdrawal / _deposit / _single_asset_deposit / _donation): a swap or a withdrawal leaves the excess exactly unchanged (unless the trader names the pool manager itself as receiver or the owner made it its own fee collector), a first deposit adds exactly the minimum liquidity in the LP denom, an unlocked single-asset deposit adds exactly (amount mod 2) in the deposit denom - the odd unit -, a bank send adds what was sent. The same equalities for locked deposits and pool creations are checked on the implementation by mon_C04 / mon_C01x.",
+ "C01": "OVER HISTORIES OF ALL OPERATIONS (ExcessLedger.v, C01_excess_is_exactly_donations_plus_odd_units): after any history made of every kind of pool-manager message (pool creations, deposits of one or several assets unlocked or locked in the farm manager - nested contract calls, the swap-reply-deposit chain -, swaps, routes, withdrawals, ownership / configuration / switch messages), every kind of farm-manager message (farm creations with their sweeps, expansions, closings through reply-on-error refunds, claims, all position operations incl. emergency withdrawals, configuration), transactions to the epoch manager and the fee collector, bank sends, block changes, faults and rejected operations, the excess in every non-LP denom is EXACTLY the initial excess plus the ledger, whose entries are only plain bank sends to the contract and the single unit of accepted odd single-asset deposits (kernel-evaluated example included). THE EXCESS CLAUSE is also proved transaction by transaction as exact equalities on (balance - reserves), per denom (TxExcess.v, theorems C01_excess_through_a_swap / _route / _withdrawal / _deposit / _single_asset_deposit / _donation): a swap or a withdrawal leaves the excess exactly unchanged (unless the trader names the pool manager itself as receiver or the owner made it its own fee collector), a first deposit adds exactly the minimum liquidity in the LP denom, an unlocked single-asset deposit adds exactly (amount mod 2) in the deposit denom - the odd unit -, a bank send adds what was sent. The same equalities for locked deposits and pool creations are checked on the implementation by mon_C04 / mon_C01x.",
  "C17": "The frame is also proved for WHOLE TRANSACTIONS (FrameChain.v, C17_accepted_transactions_are_unaffected_by_the_switches): by a relational induction over the chain interpreter (call trees, the swap -> reply -> deposit chain of single-asset provisions, locked deposits calling the farm manager, replies, tolerated refund failures), a pool operation or any transaction to another contract that is accepted both before and after the switches of a pool were changed has exactly the same effect on the whole world - every balance, every contract state - up to the changed switches.",
  "C10": "Monitor mon_C10 on the implementation (the whole LP_WEIGHT_HISTORY is observed): every position operation moves the latest weight of the position's owner and of the contract by calculate_weight(amount, position's duration) - saturating at zero on removals -, nothing else moves any latest weight, closing a closed position is never accepted, only addresses with an open position in an LP denom have weight entries for it. A user without open positions in an LP denom has no weight in it: after closing a position or withdrawing an open one, if no open position of the user in that denom is left, every weight entry of his for it is gone and his weight is 0 in every epoch (Reconcile.v, C10_no_weight_without_open_positions_after_close / _after_withdrawal). Added: C10_total_and_user_move_together_unless_a_subtraction_saturates - every weight change moves the contract total and the user's own weight by the same amount, so total - user (the weight of everybody else) is preserved except when a subtraction saturates at zero, which is exactly the class of finding F-sat.",
  "C07": "Monitor mon_C07 on the implementation (weights, farms and cursors observed): in the class covered by the theorems (the user has a cursor c, none of his weight entries for the LP denoms he stakes is older than c, the contract's history for them starts at or before c+1) an accepted Claim pays, per coin denom, exactly the sum over the farms and epochs (c, u] of floor(rate * weight in effect / total weight in effect) computed from the observed weight table by plain carry-forward. SCHEDULE INDEPENDENCE proved farm by farm and epoch by epoch (ClaimSplit.v, C07_one_claim_pays_what_two_claims_pay): the per-epoch rewards of a single claim at u2 are the concatenation of those of a claim at any intermediate epoch u1 and of the later claim at u2 computed on the state the first claim leaves (weight history synchronised at u1, farm's claimed amount increased), under explicit hypotheses that delimit the class outside the findings (all weight entries of the user in [cursor, u1+1]; the contract's history starts at or before cursor+1; budget respected); kernel-evaluated example. Lifted to all farms of one LP denom (C07_one_claim_pays_what_two_claims_pay_per_lp_denom) and END TO END to the Claim message for users staking one LP denom (ClaimTwice.v, C07_claiming_twice_pays_what_claiming_once_pays: Claim up to u1, then Claim up to u2 in any later world, send the user coin denom by coin denom exactly what the single Claim up to u2 sends; the intermediate state is derived from the first claim, the budget bound from the success of the single claim; kernel-evaluated example 262 + 262 = 524). The same END-TO-END theorem is proved for users staking ANY number of LP denoms (C07_claiming_twice_pays_what_claiming_once_pays_any_number_of_lp_denoms; claim_loop_post frames each step of the walk over the denoms against the others). Proved: the Rewards query equals what an immediate Claim pays for users staking ANY number of LP tokens, in every world reachable from genesis (C07_rewards_query_equals_claim_for_any_number_of_lp_tokens / _in_every_reachable_world; ClaimFrame.v: the claim's walk through the LP denoms is framed denom by denom - weight history and farm budgets of one denom do not influence the rewards of another; farm identifiers are unique by the custody invariant).",
